@@ -55,8 +55,4 @@ class ExpressionTokenTranslator(AbstractTranslator):
             else:
                 operator = OperatorSubTokenTranslator.translate(operator, excel, context)
 
-            if isinstance(token.left_operand, OneLeftOperandExpressionToken) and \
-                    isinstance(token.left_operand.operator, PercentToken):
-                return f"self._normalize_float_number({left_operand or ''}{operator or ''}{right_operand or ''})"
-
         return f"{left_operand or ''}{operator or ''}{right_operand or ''}"
